@@ -15,16 +15,16 @@ Last == hist[Len(hist)]
 SInit == RInit /\ hist = <<[op |-> "Start"]>>
 \* decodes are logged by battery index; the model's own Docs / Toks are not needed to generate
 Step ==
-  \/ \E n \in Names, k \in DOMAIN Kinds : Register(n, k) /\ Log([op |-> "Register", name |-> n, kind |-> k])
-  \/ \E n \in Names \cup {P1Name, P2Name, "http://UNKNOWN"} :
+  \/ \E n \in RegNames, k \in DOMAIN Kinds : Register(n, k) /\ Log([op |-> "Register", name |-> n, kind |-> k])
+  \/ \E n \in Names \cup {P1Name, P2Name, "http://UNKNOWN"}, w \in 1..4 :      \* (w: weight, the simulator picks uniformly)
        /\ rret' = rret /\ UNCHANGED <<reg, cells, next>> /\ Len(insts) < MaxInst
        /\ insts' = Append(insts, [impl |-> "?", canon |-> n, cid |-> 0])
        /\ Log([op |-> "NewClaims", name |-> n])
   \/ \E j \in 1..NBatJ : Len(insts) < MaxInst /\ insts' = Append(insts, [impl |-> "?", canon |-> "?", cid |-> 0])
                          /\ UNCHANGED <<reg, cells, next, rret>> /\ Log([op |-> "DecodeJSON", ix |-> j])
-  \/ \E j \in 1..NBatC : Len(insts) < MaxInst /\ insts' = Append(insts, [impl |-> "?", canon |-> "?", cid |-> 0])
+  \/ \E j \in 1..NBatC, w \in 1..2 : Len(insts) < MaxInst /\ insts' = Append(insts, [impl |-> "?", canon |-> "?", cid |-> 0])
                          /\ UNCHANGED <<reg, cells, next, rret>> /\ Log([op |-> "DecodeCBOR", ix |-> j])
-  \/ \E i \in 1..Len(insts), m \in {"setsw", "add", "setnonce", "setbad"} :
+  \/ \E i \in 1..Len(insts), m \in {"setsw", "add", "setnonce", "setbad", "poke"}, w \in 1..3 :
        UNCHANGED rvars /\ Log([op |-> "Mutate", ix |-> i, how |-> m])
   \/ Len(insts) > 0 /\ insts' = <<>> /\ UNCHANGED <<reg, cells, next, rret>> /\ Log([op |-> "Drop"])
 Close == Len(hist) = Depth + 1 /\ Last.op # "End" /\ Log([op |-> "End"]) /\ UNCHANGED rvars
